@@ -624,4 +624,42 @@ def c17(ctx):
                       'hash names and every hashlib name against independent implementations; judged by TraceHash.tla.')
 
 
-CHECKS = {'C17': c17, 'C06': c06, 'C16': c16, 'C15': c15, 'C14': c14, 'C05': c05, 'C11': c11, 'C03': c03, 'C10': c10, 'C12': c12, 'C13': c13, 'C01': c01, 'C02': c02, 'C04': c04, 'C07': c07, 'C08': c08, 'C09': c09}
+def c19(ctx):
+    from . import drv_profile as d
+    thorough = ctx.tier == 'thorough'
+    ctx.mc('Profile', 'MC_Profile.cfg', timeout=3000)
+    n = 6000 if thorough else 350
+    out = core.pool_map(d.one_repo, [(ctx.seed, i, {'stray_files_manifest': i % 5 == 0}) for i in range(n)])
+    recs = [r for o in out for r in o]
+    metas = [r.pop('meta') for r in recs]
+    for k in range(0, len(recs), 3000):
+        ctx.judge('TraceProfile', 'TraceProfile.cfg', recs[k:k + 3000], metas[k:k + 3000], {'module': 'TraceProfile'},
+                  sig=lambda r: hash((r['profile'], json_key(r['hashes']), r['wm'], json_key(sorted((x['role']) for x in r['dirs'])), r['end'])))
+    byp = {}
+    for r in recs:
+        byp[r['profile']] = byp.get(r['profile'], 0) + 1
+    ctx.extra['creates_by_profile'] = byp
+    ctx.sample({'argv': metas[2]['argv'], 'roles': [[x['p'], x['role']] for x in recs[2]['dirs']][:12],
+                'manifests': [m['p'] for m in recs[2]['s1']['mfs']]})
+    # create, edit, update with the profile: the update family's oracle
+    m2 = max(n // 3, 60)
+    out = core.pool_map(d.one_repo_update, [(ctx.seed, i, {}) for i in range(m2)])
+    urecs = [r for o in out for r in o]
+    umetas = [r.pop('meta') for r in urecs]
+    res = {}
+    sub = core.Ctx('C19', ctx.tier, ctx.seed)        # same property id: clauses of C03/C10/C12/C13 are other properties'
+    verd = ctx.judge('TraceUpdate', 'TraceUpdate.cfg', urecs, umetas, {'module': 'TraceUpdate'}, sig=_sig_update)
+    ctx.extra['create_edit_update_histories'] = len(urecs)
+    ctx.assumptions += ['the role of every directory is known from the generator, not inferred from the code',
+                        'empty categories and top-level directories that are neither categories nor standard are not judged',
+                        'after edits, the update is judged by the update family\'s oracle (clauses named C03/C10/C12/C13 are '
+                        'reported under other_property_clauses_seen)']
+    return ctx.finish(rule='Profile.tla: placement/typing heuristics vs the role policy for every consistent directory description, '
+                      'by TLC; generated ebuild repositories (0-3 categories x 1-3 packages with ebuilds, metadata.xml, nested '
+                      'files/, eclass, licenses, profiles, metadata with dtd/glsa/news/xml-schema/md5-cache, ignored distfiles/'
+                      'local/packages) through `gemato create -p ebuild|old-ebuild|default` with overrides of hashes / watermark / '
+                      'format; projection judged by TraceProfile.tla (placement, default IGNOREs, tags, hash set, sorting, '
+                      'watermark, ExactCover, plain-loader verification); then edits + `gemato update -p` judged by TraceUpdate.tla.')
+
+
+CHECKS = {'C19': c19, 'C17': c17, 'C06': c06, 'C16': c16, 'C15': c15, 'C14': c14, 'C05': c05, 'C11': c11, 'C03': c03, 'C10': c10, 'C12': c12, 'C13': c13, 'C01': c01, 'C02': c02, 'C04': c04, 'C07': c07, 'C08': c08, 'C09': c09}
